@@ -113,6 +113,21 @@ func scenario(c cfg) *mcx.Scenario {
 						_, _ = w.CC.Do(w.Request(ctx, codes.GET, "/werr", message.Token{0xD4}, message.Confirmable, nil))
 						failing = false
 						_, err = w.CC.Do(w.Request(ctx, codes.GET, "/a", message.Token{0xD1}, message.Confirmable, nil))
+					case "do-con-after-mid-collision":
+						// an exchange that is still outstanding (a ping waiting for its pong) owns a message ID; a request with
+						// the same, caller-chosen message ID is refused at once - and must not leave anything behind (the
+						// NSTART slot it had already taken) that blocks the next request beyond its interruption
+						mid := w.CC.GetMessageID() + 1
+						cancelPing, perr := w.CC.AsyncPing(func() {})
+						if perr == nil { // (it fails when the interruption - Close - came first)
+							defer cancelPing()
+						}
+						dup := w.Request(ctx, codes.GET, "/dup", message.Token{0xD5}, message.Confirmable, nil)
+						dup.SetMessageID(mid)
+						if _, derr := w.CC.Do(dup); derr == nil && perr == nil {
+							fs = append(fs, mcx.Finding{Sig: "ENGINE/setup", What: "the request with the message ID of the outstanding ping was not refused (scenario vacuous)"})
+						}
+						_, err = w.CC.Do(w.Request(ctx, codes.GET, "/a", message.Token{0xD1}, message.Confirmable, nil))
 					case "queued":
 						vrt.WaitUntil("op waits until the slot is taken", func() bool { return len(w.Outs) > 0 || occupierDone })
 						_, err = w.CC.Do(w.Request(ctx, codes.GET, "/q", message.Token{0xD2}, message.NonConfirmable, nil))
@@ -216,7 +231,7 @@ func (u *unreadable) Seek(off int64, whence int) (int64, error) {
 func main() {
 	r := ev.Start("C09", "model_checking")
 	var scs []*mcx.Scenario
-	ops := []string{"do-con", "do-non", "do-block", "observe", "observe-cancel", "ping", "write-con", "queued", "do-con-after-failed-requests"}
+	ops := []string{"do-con", "do-non", "do-block", "observe", "observe-cancel", "ping", "write-con", "queued", "do-con-after-failed-requests", "do-con-after-mid-collision"}
 	for _, op := range ops {
 		for _, in := range []string{"cancel", "deadline", "close"} {
 			for _, peer := range []string{"silent", "ackonly", "garbage"} {
@@ -233,7 +248,7 @@ func main() {
 	// deadlock findings are renamed per scenario by the checker only when the checker runs; the engine-level
 	// deadlock signature already names the blocked thread and its operation
 	mcx.Report(r, scs, sum)
-	r.Set("rule", "scenario = blocking operation (Do CON / Do NON / 3-block upload / Observe / Observation.Cancel / Ping / one-way WriteMessage / request queued behind the parallel-request limiter) x interruption (context cancel, virtual deadline, local Close twice) x peer behaviour (silent, acknowledges without answering, garbage datagrams); the interrupting thread is a separate application thread, so the preemption-bounded search places the interruption at every scheduling point of the operation; oracle: the scheduler's deadlock detection (an application thread parked when nothing is enabled), Done() closed and on-close callbacks run exactly once after Close; distinct outcome = distinct return value of the operation; session families: real tcp and udp sessions (Run loop, two concurrent Close, peer close/error, blocked writes, Close while the receive queue is full and the handler busy); server families: udp/tcp/dtls server Stop from two goroutines with a handler in flight and a server-initiated request waiting (Serve returns, every Done closes, on-close callbacks once, the request returns)")
+	r.Set("rule", "scenario = blocking operation (Do CON / Do NON / 3-block upload / Observe / Observation.Cancel / Ping / one-way WriteMessage / request queued behind the parallel-request limiter / Do CON after requests that failed before anything was written / Do CON after a request refused for a message-ID collision with an outstanding ping) x interruption (context cancel, virtual deadline, local Close twice) x peer behaviour (silent, acknowledges without answering, garbage datagrams); the interrupting thread is a separate application thread, so the preemption-bounded search places the interruption at every scheduling point of the operation; oracle: the scheduler's deadlock detection (an application thread parked when nothing is enabled), Done() closed and on-close callbacks run exactly once after Close; distinct outcome = distinct return value of the operation; session families: real tcp and udp sessions (Run loop, two concurrent Close, peer close/error, blocked writes, Close while the receive queue is full and the handler busy); server families: udp/tcp/dtls server Stop from two goroutines with a handler in flight and a server-initiated request waiting (Serve returns, every Done closes, on-close callbacks once, the request returns)")
 	r.Sample(map[string]any{"scenario": scs[0].Name})
 	r.Assume("a socket write completes (the in-memory session never blocks a write)", "configurations in which the library owns the socket/session (Dial-like, accepted connections)", "deadlines are virtual: the interrupting thread advances the virtual clock past the context deadline")
 	r.Finish()
